@@ -16,7 +16,8 @@ Outcome on the current tree (facts regenerated into `Arc.Generated.C21`):
   between a verifier's database read and its cache insert (`serialDB`; the generation guard is NOT in
   the source).  `C21_full_applies` re-checks exactly that fact on every run; without it the
   stale-insert schedule of DESIGN.md is a counterexample: `C21_full_witness`.  `C21_partial` needs
-  neither protection.
+  neither protection.  All three additionally need `hitTouch = false`: the cache-hit path does not write
+  the cache after its RUnlock (regenerated fact `hitPathWritesCache`; `C21_full_touch_witness` otherwise).
 * `C21_authn_iff` **holds** since /repo b9131b8 (the cache-hit path re-checks the token's own
   `expires_at`): `C21_authn_applies` ties it to the source, `C21_authn_iff_current` is the checked full
   statement.  `C21_authn_expiry_witness` documents what happened before that commit (an expired token
@@ -42,7 +43,7 @@ theorem connOK_cold {s : State} (hv : ∀ (i : Nat) (v : VThread), s.vs[i]? = so
   have := hv i v hi
   rcases hh with h | h | h <;> rw [this] at h <;> simp at h
 
-theorem late_run {cfg : Cfg} {k i : Nat} :
+theorem late_run {cfg : Cfg} {k i : Nat} (hnt : cfg.hitTouch = false) :
     ∀ (evs : List Ev) (s s' : State) (v : VThread), Inv cfg s → s.m.pc = .done → PostOK s k →
       s.vs[i]? = some v → Late k v → run cfg s evs = some s' → ∃ v', s'.vs[i]? = some v' ∧ Late k v' := by
   intro evs
@@ -59,7 +60,7 @@ theorem late_run {cfg : Cfg} {k i : Nat} :
     · simp at hr
     · rename_i s1 hs1
       have hI1 : Inv cfg s1 :=
-        inv_step hI hs1 (Or.inr (Or.inl (fun h => by rw [hd] at h; simp at h)))
+        inv_step hnt hI hs1 (Or.inr (Or.inl (fun h => by rw [hd] at h; simp at h)))
       obtain ⟨hd1, v1, hv1, hL1⟩ := late_step hI hd hP hv hL hs1
       exact ih s1 s' v1 hI1 hd1 (postOK_step hP hs1) hv1 hL1 hr
 
@@ -80,14 +81,16 @@ def FullClaim (cfg : Cfg) : Prop :=
 
 /-- **C21_full.** Holds whenever the source has at least one of the two protections: the serialising
 single connection (today) or the generation-guarded insert (the proposed repair). Any `n`, all
-interleavings. -/
-theorem C21_full (cfg : Cfg) (hcfg : cfg.serialDB = true ∨ cfg.genGuard = true) : FullClaim cfg := by
+interleavings. Second hypothesis: the cache-hit path does not write the cache after releasing the read
+lock (`hitTouch = false`; `C21_full_touch_witness` shows it is needed even with the single connection). -/
+theorem C21_full (cfg : Cfg) (hcfg : cfg.serialDB = true ∨ cfg.genGuard = true)
+    (hnt : cfg.hitTouch = false) : FullClaim cfg := by
   intro s0 s1 s2 pre post i v v' hI hC hm0 h1 hdone hv hstart hres hold h2 hv'
-  have hI1 := (inv_conn_run hcfg pre s0 s1 hI hC h1).1
+  have hI1 := (inv_conn_run hcfg hnt pre s0 s1 hI hC h1).1
   have hP0 : PostOK s0 v.val := ⟨hold, fun h => absurd hm0 h⟩
   have hP1 := postOK_run pre s0 s1 hP0 h1
   have hL : Late v.val v := ⟨rfl, by rw [hres]; simp, Or.inl hstart⟩
-  obtain ⟨v'', hv'', hL''⟩ := late_run post s1 s2 v hI1 hdone hP1 hv hL h2
+  obtain ⟨v'', hv'', hL''⟩ := late_run hnt post s1 s2 v hI1 hdone hP1 hv hL h2
   rw [hv'] at hv''
   simp only [Option.some.injEq] at hv''
   subst hv''
@@ -96,15 +99,16 @@ theorem C21_full (cfg : Cfg) (hcfg : cfg.serialDB = true ∨ cfg.genGuard = true
 /-- **C21_full_applies.** The facts regenerated from the CURRENT source provide a protection
 (today: `db.SetMaxOpenConns(1)` + rows held across the insert). Editing either away without adding
 the generation guard makes this `decide` fail. -/
-theorem C21_full_applies : (serialDBNow || Arc.Generated.C21.genGuard) = true := by decide
+theorem C21_full_applies :
+    ((serialDBNow || Arc.Generated.C21.genGuard) && !Arc.Generated.C21.hitPathWritesCache) = true := by
+  decide
 
 /-- **C21_full_current.** The property for the LTS configured from the current source, any cache TTL
 and cache size. -/
 theorem C21_full_current (ttl maxCache : Nat) : FullClaim (currentCfg ttl maxCache) := by
-  apply C21_full
   have h := C21_full_applies
-  simp only [Bool.or_eq_true] at h
-  exact h
+  simp only [Bool.and_eq_true, Bool.or_eq_true, Bool.not_eq_eq_eq_not, Bool.not_true] at h
+  exact C21_full _ h.1 h.2
 
 /-- **C21_invalidation_sites.** Every mutator of the current source (direct and cluster-apply) calls
 `InvalidateCache` after its SQL statement — the `inval = true` component of the invariant. -/
@@ -113,7 +117,7 @@ theorem C21_invalidation_sites : ∀ m ∈ Arc.Generated.C21.mutators, m.2.2.2 =
 /-! ### the counterexample DESIGN.md predicted — real only without `serialDB` and `genGuard` -/
 
 def cfgUnprotected : Cfg :=
-  { serialDB := false, genGuard := false, hitChecksExpiry := false, ttl := 3600, maxCache := 100 }
+  { serialDB := false, genGuard := false, hitChecksExpiry := false, hitTouch := false, ttl := 3600, maxCache := 100 }
 
 def rowA : Row := { hashOf := 1, legacy := false, enabled := true, expiry := none }
 
@@ -124,7 +128,7 @@ def sA : State :=
 
 /-- V.lookup V.dbread │ M.dbupdate M.invalidate │ V.hashcheck V.insert V.return │ V'.lookup -/
 def staleInsertPre : List Ev := [.v 0, .v 0, .m, .m]
-def staleInsertPost : List Ev := [.v 0, .v 0, .v 0, .v 1]
+def staleInsertPost : List Ev := [.v 0, .v 0, .v 0, .v 1, .v 1]
 
 theorem two_at_start (a b : VThread) (ha : a.pc = .start) (hb : b.pc = .start) :
     ∀ (i : Nat) (v : VThread), [a, b][i]? = some v → v.pc = .start := by
@@ -154,6 +158,47 @@ theorem C21_full_witness : ¬ FullClaim cfgUnprotected := by
     exact h sA s1 s2 staleInsertPre staleInsertPost 1 { val := 1 } v' hI (fun hh => by simp [cfgUnprotected] at hh)
       rfl hs1 hd hv1 rfl rfl (fun nv hk => by simp [sA] at hk) hs2 hv' hr
 
+/-! ### a cache-hit path that writes the cache defeats the single connection -/
+
+def cfgTouch : Cfg :=
+  { serialDB := true, genGuard := false, hitChecksExpiry := true, hitTouch := true, ttl := 3600, maxCache := 100 }
+
+/-- warm cache: the entry for value 1 was inserted at t=0 (expires 3600); it is now t=2000, past half. -/
+def sT : State :=
+  { sh := { db := some rowA, cache := [(1, { info := rowA, cexp := 3600 })], gen := 0, now := 2000, conn := none }
+    vs := [{ val := 1 }, { val := 1 }]
+    m := { kind := .revoke, cluster := false, inval := true } }
+
+/-- **C21_full_touch_witness.** With a sliding-expiration re-insert on the hit path (seeded change
+C21-b2): V.lookup(hit) │ M.dbupdate M.invalidate │ V.touch+return │ V'.lookup(hit) — the revoked value
+authenticates from the cache after `RevokeToken` returned, single connection notwithstanding. -/
+theorem C21_full_touch_witness : ¬ FullClaim cfgTouch := by
+  intro h
+  have hat := two_at_start { val := 1 } { val := 1 } rfl rfl
+  have hI : Inv cfgTouch sT := by
+    refine ⟨?_, ?_, ?_, rfl⟩
+    · intro k e hke
+      simp [sT] at hke
+      obtain ⟨hk, he⟩ := hke
+      subst hk; subst he
+      exact Or.inl ⟨⟨rfl, rfl⟩, rfl⟩
+    · intro i v hi hp
+      have := hat i v hi
+      rcases hp with hp | hp <;> rw [this] at hp <;> simp at hp
+    · intro i v hi hp; exact absurd (hat i v hi) hp
+  have h2 : ∃ s1 s2, run cfgTouch sT [.v 0, .m, .m] = some s1 ∧
+      run cfgTouch s1 [.v 0, .v 1, .v 1] = some s2 ∧
+      s1.m.pc = .done ∧ s1.vs[1]? = some { val := 1 } ∧ s2.vs[1]?.map (·.res) = some (some true) :=
+    ⟨_, _, rfl, rfl, rfl, rfl, rfl⟩
+  obtain ⟨s1, s2, hs1, hs2, hd, hv1, hr⟩ := h2
+  cases hv' : s2.vs[1]? with
+  | none => rw [hv'] at hr; simp at hr
+  | some v' =>
+    rw [hv'] at hr
+    simp only [Option.map_some, Option.some.injEq] at hr
+    exact h sT s1 s2 _ _ 1 { val := 1 } v' hI (fun _ => connOK_cold hat)
+      rfl hs1 hd hv1 rfl rfl (fun nv hk => by simp [sT] at hk) hs2 hv' hr
+
 /-! ## `C21_partial` — no assumption on the source facts -/
 
 def noReaders (s : State) : Bool := s.vs.all (fun v => v.pc != .row && v.pc != .preins)
@@ -176,7 +221,7 @@ theorem noReaders_sound {s : State} (h : noReaders s = true) : NoReaders s := by
   simp at this
   exact this
 
-theorem inv_run_quiet {cfg : Cfg} :
+theorem inv_run_quiet {cfg : Cfg} (hnt : cfg.hitTouch = false) :
     ∀ (evs : List Ev) (s s' : State), Inv cfg s → quietAtUpdate cfg s evs = true →
       run cfg s evs = some s' → Inv cfg s' := by
   intro evs
@@ -200,12 +245,12 @@ theorem inv_run_quiet {cfg : Cfg} :
           rw [if_pos hm] at this
           exact noReaders_sound this
         · exact Or.inr (Or.inl hm)
-      exact ih s1 s' (inv_step hI hs1 hsafe) hq.2 hr
+      exact ih s1 s' (inv_step hnt hI hs1 hsafe) hq.2 hr
 
 /-- **C21_partial.** For EVERY configuration of the source facts (no single connection, no generation
 guard): if no verification holds a database row at the moment the mutator's SQL statement runs, then
 no verification started after the mutator returned authenticates the old value. -/
-theorem C21_partial (cfg : Cfg)
+theorem C21_partial (cfg : Cfg) (hnt : cfg.hitTouch = false)
     (s0 s1 s2 : State) (pre post : List Ev) (i : Nat) (v v' : VThread)
     (hI : Inv cfg s0) (hm0 : s0.m.pc = .start)
     (hquiet : quietAtUpdate cfg s0 pre = true)
@@ -213,11 +258,11 @@ theorem C21_partial (cfg : Cfg)
     (hv : s1.vs[i]? = some v) (hstart : v.pc = .start) (hres : v.res = none)
     (hold : ∀ nv, s0.m.kind = .rotate nv → v.val ≠ nv)
     (h2 : run cfg s1 post = some s2) (hv' : s2.vs[i]? = some v') : v'.res ≠ some true := by
-  have hI1 := inv_run_quiet pre s0 s1 hI hquiet h1
+  have hI1 := inv_run_quiet hnt pre s0 s1 hI hquiet h1
   have hP0 : PostOK s0 v.val := ⟨hold, fun h => absurd hm0 h⟩
   have hP1 := postOK_run pre s0 s1 hP0 h1
   have hL : Late v.val v := ⟨rfl, by rw [hres]; simp, Or.inl hstart⟩
-  obtain ⟨v'', hv'', hL''⟩ := late_run post s1 s2 v hI1 hdone hP1 hv hL h2
+  obtain ⟨v'', hv'', hL''⟩ := late_run hnt post s1 s2 v hI1 hdone hP1 hv hL h2
   rw [hv'] at hv''
   simp only [Option.some.injEq] at hv''
   subst hv''
@@ -238,9 +283,10 @@ def AuthnClaim (cfg : Cfg) : Prop :=
 /-- **C21_authn_iff.** Holds for every configuration in which the cache-hit path re-checks the
 token's own expiry (the current source since b9131b8, see `C21_authn_applies`). Sequential and
 concurrent. -/
-theorem C21_authn_iff (cfg : Cfg) (hx : cfg.hitChecksExpiry = true) : AuthnClaim cfg := by
+theorem C21_authn_iff (cfg : Cfg) (hx : cfg.hitChecksExpiry = true) (hnt : cfg.hitTouch = false) :
+    AuthnClaim cfg := by
   intro s0 s1 evs i v hA hr hv hres
-  obtain ⟨r, hseen, hen, hh, hu⟩ := (auth_run evs s0 s1 hA hr).res i v hv hres
+  obtain ⟨r, hseen, hen, hh, hu⟩ := (auth_run hnt evs s0 s1 hA hr).res i v hv hres
   refine ⟨r, hseen, hh, hen, ?_⟩
   cases he : r.expiry with
   | none => simp [expired]
@@ -252,14 +298,14 @@ theorem C21_authn_iff (cfg : Cfg) (hx : cfg.hitChecksExpiry = true) : AuthnClaim
 /-- **C21_authn_iff_partial.** What holds for EVERY configuration, the current source included:
 issued ∧ enabled ∧ (not expired, or — via a cache hit — less than one cache TTL past the expiry).
 In particular the full statement holds for tokens without an expiry and when caching is off. -/
-theorem C21_authn_iff_partial (cfg : Cfg)
+theorem C21_authn_iff_partial (cfg : Cfg) (hnt : cfg.hitTouch = false)
     (s0 s1 : State) (evs : List Ev) (i : Nat) (v : VThread)
     (hA : Auth cfg s0.sh.db s0) (hr : run cfg s0 evs = some s1) (hv : s1.vs[i]? = some v)
     (hres : v.res = some true) :
     ∃ r, (s0.sh.db = some r ∨ s1.sh.db = some r) ∧ r.hashOf = v.val ∧ r.enabled = true ∧
       (∀ t, r.expiry = some t → v.now < t + cfg.ttl ∨ v.now ≤ t) ∧
       ((r.expiry = none ∨ cfg.ttl = 0) → expired r.expiry v.now = false) := by
-  obtain ⟨r, hseen, hen, hh, hu⟩ := (auth_run evs s0 s1 hA hr).res i v hv hres
+  obtain ⟨r, hseen, hen, hh, hu⟩ := (auth_run hnt evs s0 s1 hA hr).res i v hv hres
   refine ⟨r, hseen, hh, hen, ?_, ?_⟩
   · intro t ht
     rcases hu t ht with h | h
@@ -277,11 +323,11 @@ theorem C21_authn_iff_partial (cfg : Cfg)
 
 /-- **C21_authn_seq.** Sequential exactness: with no mutation in the history, a value authenticates
 only if the row the database holds NOW carries a hash of that value and is enabled. -/
-theorem C21_authn_seq (cfg : Cfg) (s0 s1 : State) (evs : List Ev) (i : Nat) (v : VThread)
+theorem C21_authn_seq (cfg : Cfg) (hnt : cfg.hitTouch = false) (s0 s1 : State) (evs : List Ev) (i : Nat) (v : VThread)
     (hA : Auth cfg s0.sh.db s0) (hm0 : s0.m.pc = .start) (hnom : ∀ e ∈ evs, e ≠ Ev.m)
     (hr : run cfg s0 evs = some s1) (hv : s1.vs[i]? = some v) (hres : v.res = some true) :
     ∃ r, s1.sh.db = some r ∧ r.hashOf = v.val ∧ r.enabled = true := by
-  have hA1 := auth_run evs s0 s1 hA hr
+  have hA1 := auth_run hnt evs s0 s1 hA hr
   obtain ⟨r, hseen, hen, hh, _⟩ := hA1.res i v hv hres
   have hm : s1.m.pc = .start := by rw [run_no_m evs s0 s1 hnom hr]; exact hm0
   have hdb := hA1.dbfix hm
@@ -293,7 +339,7 @@ theorem C21_authn_seq (cfg : Cfg) (s0 s1 : State) (evs : List Ev) (i : Nat) (v :
 /-! ### the expiry counterexample — real before /repo b9131b8, kept as the tightness witness -/
 
 def cfgNoHitExpiry : Cfg :=
-  { serialDB := true, genGuard := false, hitChecksExpiry := false, ttl := 3600, maxCache := 100 }
+  { serialDB := true, genGuard := false, hitChecksExpiry := false, hitTouch := false, ttl := 3600, maxCache := 100 }
 
 def sE : State :=
   { sh := { db := some { hashOf := 1, legacy := false, enabled := true, expiry := some 10 },
@@ -302,7 +348,7 @@ def sE : State :=
     m := { kind := .revoke, cluster := false, inval := true } }
 
 /-- verify at t=0 (fills the cache), clock to t=60 (token expired at t=10), verify again: cache hit. -/
-def expiryTrace : List Ev := [.v 0, .v 0, .v 0, .v 0, .v 0, .tick 60, .v 1]
+def expiryTrace : List Ev := [.v 0, .v 0, .v 0, .v 0, .v 0, .tick 60, .v 1, .v 1]
 
 /-- **C21_authn_expiry_witness.** Without the expiry re-check on the cache-hit path an expired token
 authenticates (sequentially — no concurrency needed). -/
@@ -337,17 +383,21 @@ theorem C21_authn_expiry_witness : ¬ AuthnClaim cfgNoHitExpiry := by
 
 /-- **C21_authn_applies.** The CURRENT source re-checks `entry.info.ExpiresAt` in the cache-hit
 condition of `VerifyToken` (fixed in /repo b9131b8). Removing that conjunct makes this `decide` fail. -/
-theorem C21_authn_applies : Arc.Generated.C21.hitChecksExpiry = true := by decide
+theorem C21_authn_applies :
+    (Arc.Generated.C21.hitChecksExpiry && !Arc.Generated.C21.hitPathWritesCache) = true := by decide
 
 /-- **C21_authn_iff_current.** The second sentence of the property at full strength for the LTS
 configured from the current source, any cache TTL and cache size. -/
-theorem C21_authn_iff_current (ttl maxCache : Nat) : AuthnClaim (currentCfg ttl maxCache) :=
-  C21_authn_iff _ C21_authn_applies
+theorem C21_authn_iff_current (ttl maxCache : Nat) : AuthnClaim (currentCfg ttl maxCache) := by
+  have h := C21_authn_applies
+  simp only [Bool.and_eq_true, Bool.not_eq_eq_eq_not, Bool.not_true] at h
+  exact C21_authn_iff _ h.1 h.2
 
 /-- what the regenerated facts say about the expiry clause today: the full claim once the cache-hit
 path re-checks `ExpiresAt`, the counterexample until then. Re-checked on every run. -/
 def ExpiryClaimNow : Prop :=
-  if Arc.Generated.C21.hitChecksExpiry = true then ∀ ttl maxCache, AuthnClaim (currentCfg ttl maxCache)
+  if (Arc.Generated.C21.hitChecksExpiry && !Arc.Generated.C21.hitPathWritesCache) = true then
+    ∀ ttl maxCache, AuthnClaim (currentCfg ttl maxCache)
   else ¬ AuthnClaim cfgNoHitExpiry
 
 /-- **C21_authn_current.** Proved for whichever branch the current source selects. -/
@@ -356,13 +406,14 @@ theorem C21_authn_current : ExpiryClaimNow := by
   split
   · rename_i hx
     intro ttl maxCache
-    exact C21_authn_iff _ hx
+    simp only [Bool.and_eq_true, Bool.not_eq_eq_eq_not, Bool.not_true] at hx
+    exact C21_authn_iff _ hx.1 hx.2
   · exact C21_authn_expiry_witness
 
 /-! ## non-vacuity -/
 
 def cfgSerial : Cfg :=
-  { serialDB := true, genGuard := false, hitChecksExpiry := false, ttl := 3600, maxCache := 100 }
+  { serialDB := true, genGuard := false, hitChecksExpiry := false, hitTouch := false, ttl := 3600, maxCache := 100 }
 
 /-- hypotheses of `C21_full` are satisfiable with real concurrency: v0 authenticates and is cached,
 v1 holds the row (so the revoke has to wait: the `.m` step is *disabled* there), v1 inserts and
